@@ -12,6 +12,10 @@ back and must render identically; a third colour must be the fatal error.
 Text drawn under a decoration (src/handlers/draw.rs): `decorated_text_oracle` = every option whose text a drawing function
 writes x every decoration kind x every attribute, and the correspondence `draw.header` (real binary vs the Lean model
 style parser -> get_draw_function -> Draw.draw, run through DeltaModel/DrawTextRun.lean).
+A style option and the OTHER style options (src/paint.rs, src/style.rs): `other_options_oracle` = the hunk-line triples
+(X-style, X-emph-style, X-non-emph-style) over nine relations of their strings (equal, different, respelt, references, not
+given) plus groups of other options sharing one string; correspondence `guards.line` (real binary vs
+DeltaModel/StyleGuardsRun.lean = `StyleGuards.paintedLine` over Generated/StyleGuards.lean, every character of every hunk line).
 """
 import itertools
 import re
@@ -1590,6 +1594,7 @@ INTERPLAY_HUNKS = [
     (["kappa lambdaq mu", "wholly different removed words here unpairedq"], ["kappa sigmaq mu"]),
     (["omega rhoq tau"], ["omega piq tau  "]),
     (["upsilon phi chiq"], ["upsilon phi psiq"]),
+    ([], ["wsq solo  "]),
 ]
 # (row needle, side, has a partner, words the emph style governs, words the non-emph / line style governs)
 INTERPLAY_ROWS = [
@@ -1604,7 +1609,10 @@ INTERPLAY_ROWS = [
     ("piq", "plus", True, ["piq"], ["omega", "tau"]),
     ("chiq", "minus", True, ["chiq"], ["upsilon", "phi"]),
     ("psiq", "plus", True, ["psiq"], ["upsilon", "phi"]),
+    ("wsq", "plus", False, [], ["wsq", "solo"]),
 ]
+# rows of added lines that end in blanks (a whitespace error): (row needle, last word, number of blanks)
+INTERPLAY_TRAILING = [("piq", "tau", 2), ("wsq", "solo", 2)]
 
 
 def _interplay_diff():
@@ -1779,7 +1787,7 @@ def other_options_oracle(ctx, rep, baseline=None):
     zero / minus / plus, the emph styles of both sides, …): each still shows its own string's denotation."""
     rng = ctx.rng
     jobs = []
-    reps = ctx.n(2, 30)
+    reps = ctx.n(5, 40)
     for r in range(reps):
         for k, pat in enumerate(TRIPLE_PATTERNS):
             for lead in ("minus", "plus"):
@@ -1792,9 +1800,14 @@ def other_options_oracle(ctx, rep, baseline=None):
                         if v is not None:
                             assign[sd + role] = v
                 assign["zero-style"] = gen_plain_style(rng)
-                assign["whitespace-error-style"] = gen_plain_style(rng)
+                # whitespace-error-style: its own string, or the very string of one of the added-line options
+                ws_rel = rng.choice(["own", "own", "plus-style", "plus-emph-style", "plus-non-emph-style"])
+                ws = assign.get(ws_rel) if ws_rel != "own" else None
+                if ws is None or (ws.endswith("-style") and " " not in ws):
+                    ws_rel, ws = "own", gen_plain_style(rng)
+                assign["whitespace-error-style"] = ws
                 source = "gitconfig" if (r * len(TRIPLE_PATTERNS) + k) % 6 == 5 else "cli"
-                jobs.append(dict(pats=pats, triples=triples, assign=assign, tc=(r + k) % 2, source=source))
+                jobs.append(dict(pats=pats, triples=triples, assign=assign, tc=(r + k) % 2, source=source, ws_rel=ws_rel))
     homes = {}
     for j in jobs:
         depth = "--true-color=" + ("always" if j["tc"] else "never")
@@ -1818,7 +1831,7 @@ def other_options_oracle(ctx, rep, baseline=None):
     mreqs, mctx = [], []
     for j, (rc, out, err) in zip(jobs, results):
         replay = dict(kind="interplay", args=j["args"], env=j["env"], gitconfig=j["gitconfig"], stdin="INTERPLAY_DIFF",
-                      patterns=j["pats"], assign=j["assign"], true_color=j["tc"], source=j["source"])
+                      patterns=j["pats"], assign=j["assign"], true_color=j["tc"], source=j["source"], whitespace_error=j["ws_rel"])
         rep.case(key=("interplay", tuple(sorted(j["assign"].items())), j["tc"], j["source"]), nontrivial=True,
                  sample=dict(op="interplay", patterns=j["pats"], assign=j["assign"], true_color=j["tc"], source=j["source"], rc=rc))
         for sd in ("minus", "plus"):
@@ -1861,6 +1874,21 @@ def other_options_oracle(ctx, rep, baseline=None):
                                expected=T.style_key(*[e if not (isinstance(e, tuple) and e and e[0] == "quantised") else ("rgb",) + e[1]
                                                       for e in exp[:2]], exp[2]),
                                got=[T.style_key(c.fg, c.bg, c.attrs) for c in bad[:3]]))
+        # trailing blanks of added lines are whitespace errors: whitespace-error-style governs them
+        wexp = expected_style(j["assign"]["whitespace-error-style"], j["tc"], {}, "whitespace-error-style")
+        for needle, last, n in INTERPLAY_TRAILING:
+            row = rows.get(needle)
+            if row is None:
+                continue
+            k = row.text().find(last) + len(last)
+            bad = [c for c in row.cells[k:k + n] if not style_matches(c, wexp)]
+            if bad:
+                rel = "own-string" if j["ws_rel"] == "own" else "equal-to-" + j["ws_rel"]
+                _viol(rep, "given:style-not-painted-as-given:whitespace-error-style:" + rel,
+                      "the trailing blanks of an added line (a whitespace error) do not carry exactly the colours / attributes of "
+                      "the string given to whitespace-error-style",
+                      dict(replay, option="whitespace-error-style", given=j["assign"]["whitespace-error-style"], line=needle,
+                           relation=rel, got=[T.style_key(c.fg, c.bg, c.attrs) for c in bad[:3]]))
         # zero lines
         zrow = next((r for r in dec.rows if r.text().startswith("zeroq0")), None)
         zexp = expected_style(j["assign"]["zero-style"], j["tc"], {}, "zero-style")
@@ -1892,7 +1920,7 @@ def other_options_oracle(ctx, rep, baseline=None):
                                                       ",".join(given)))
             mctx.append((j, replay, needle, sd, secs, rows[needle], by_id))
     if mreqs:
-        ans, log = _guards_model(mreqs) if ctx.drivers_ok else (None, "drivers not built")
+        ans, log = _guards_model(mreqs)           # interpreted model: independent of the lean_exe drivers
         if ans is None:
             rep.corr_case("guards.line", False, dict(error="model runner failed", log=log))
         else:
@@ -1976,7 +2004,11 @@ def run(ctx, rep):
                 "10 elements drawn by draw.rs (file header with / without mode addendum, commit line, hunk-header code / file / "
                 "line number, merge-conflict ours / theirs headers, ripgrep and classic grep headers) x 9 decoration kinds "
                 "(option unset, none, ul, ol, ul ol, box, box ul, box ol, box ul ol; random colour / bold prefix) x every single "
-                "attribute + random attribute sets + all eight + colours only, command line / git config, fixed / variable width. "
+                "attribute + random attribute sets + all eight + colours only, command line / git config, fixed / variable width; "
+                "other options: the triples (X-style, X-emph-style, X-non-emph-style), X = minus / plus, over nine relations of their "
+                "strings (all different, emph = non-emph, the same respelt, all equal, emph = plain, non-emph = plain, non-emph not "
+                "given / a reference to the emph / plain option) on paired and unpaired lines, command line / git config, both depths, "
+                "every character also against the Lean model (guards.line); eight groups of other options given one and the same string. "
                 "Non-trivial = at least one word; distinct by (op, default, depth, string)")
     rep.extra_trusted += ["ansi_colours::ansi256_from_rgb (oracle of the model; sanity-bounded against the xterm palette)",
                           "str::to_lowercase / split_whitespace (modelled for ASCII; generators are ASCII)",
